@@ -57,6 +57,10 @@ static uint64_t xv_new_entries(uint64_t n) { if (n > ALLOC_MAX) { xv_threw = XV_
 #define XV_INIT__k(self, v) ((self)->_k = (v))
 #define XV_INIT__head(self, v) ((self)->_head = XV_MI_DEFAULT)      /* marked_idx() = default; uint64_t _val = <XV_MI_DEFAULT, read from the header> */
 #define XV_INIT__tail(self, v) ((self)->_tail = XV_MI_DEFAULT)
+/* a 64-bit division in the constructor (the wrap-around test of the repaired constructor): evaluated once, result remembered, so that the
+ * obligation can refer to this very quotient (cbmc cannot prove facts about 64x64-bit products; see kbq.ctor.size) */
+uint64_t g_div_a, g_div_b, g_div_q; unsigned g_div_n;
+static uint64_t XV_UDIV(uint64_t a, uint64_t b) { g_div_a = a; g_div_b = b; g_div_q = a / b; g_div_n++; return g_div_q; }
 static void xv_init_queue(uint64_t tok) { if (tok) g_queue_inits++; }
 #define XV_INIT__queue(self, ...) xv_init_queue(__VA_ARGS__ + 0)      /* _queue() (empty unique_ptr) or _queue(new entry[n]()) / _queue.reset(new entry[n]()) */
 #define XENIUM_VERIF_POINT(id) ((void)0)                               /* replay hook of instrumented trees: no effect */
@@ -153,13 +157,14 @@ uint64_t in_v, in_m, in_k, in_s, in_to, in_t, in_h;
 /* kbq.idx.roundtrip + kbq.ctor.*: run the real constructor on every (k >= 1, num_segments >= 1); if it accepts (no exception, allocation
  * possible), every index v < _queue_size - that is every value the operations can store in _head/_tail - must survive marked_idx. */
 void h_ctor(void) {
-  struct kbq q; mon_reset(&q); g_allocs = 0; g_queue_inits = 0; g_alloc_n = nondet_u64();
+  struct kbq q; mon_reset(&q); g_allocs = 0; g_queue_inits = 0; g_alloc_n = nondet_u64(); g_div_n = 0;
   q._queue_size = nondet_u64(); q._k = nondet_size(); q._head = nondet_u64(); q._tail = nondet_u64();
   in_k = nondet_u64(); in_s = nondet_u64(); in_v = nondet_u64(); in_m = nondet_u64();
   XV_ASSUME(in_k >= 1 && in_s >= 1);
   kbq_ctor(&q, in_k, in_s);
   if (xv_threw) { XV_CANARY("ctor.rejected"); return; }
-  XV_OBL("kbq.ctor.size", q._queue_size >= 1 && q._queue_size / in_k == in_s);              /* == k*num_segments without wrap-around */
+  /* _queue_size == k*num_segments without wrap-around  <=>  (k*num_segments mod 2^64) / k == num_segments; the constructor must have made exactly this test */
+  XV_OBL("kbq.ctor.size", q._queue_size >= 1 && g_div_n == 1 && g_div_a == q._queue_size && g_div_b == in_k && g_div_q == in_s);
   XV_OBL("kbq.ctor.state", q._k == in_k && q._head == 0 && q._tail == 0 && g_allocs == 1 && g_queue_inits == 1 && g_alloc_n == q._queue_size);
   if (in_v < q._queue_size) {
     marked_idx w = MI_make(in_v, in_m);
